@@ -82,8 +82,15 @@ pub fn gen_fragment(ctx: &mut Ctx) -> String {
 
 fn gen_url(ctx: &mut Ctx) -> String {
     let scheme = *ctx.tape.choose(&["http", "ftp", "file"]);
-    let path = *ctx.tape.choose(&["/a/b.xml", "/cfg?x=1&y=2", "/o'brien/cfg", "/p;type=i", "/%5D%5D%3E", "/a(b)*!$,+"]);
-    format!("{scheme}://host.example{path}")
+    let path = *ctx.tape.choose(&["/a/b.xml", "/cfg?x=1&y=2", "/o'brien/cfg", "/p;type=i", "/%5D%5D%3E", "/a(b)*!$,+", "/base.conf#frag", "/"]);
+    if scheme == "file" {
+        return format!("file://host.example{path}");
+    }
+    // credentials, ports and literal addresses are part of the value the server must receive
+    let userinfo = *ctx.tape.choose(&["", "", "backup@", "backup:s3cr%40t@", "backup:@", "u%20ser:p%3Aw@", "anonymous:a&b@"]);
+    let host = *ctx.tape.choose(&["host.example", "host.example", "192.0.2.10", "[2001:db8::1]", "xn--bcher-kva.example"]);
+    let port = *ctx.tape.choose(&["", "", ":8080", ":2121"]);
+    format!("{scheme}://{userinfo}{host}{port}{path}")
 }
 
 #[derive(Clone, Debug)]
